@@ -150,6 +150,15 @@ class SimTransport(object):
             return text if p["returns"] == "str" else text.encode("utf-8")
         return doc
 
+    def handler_alt(self, uri):
+        """A second handler function for the same network (the user replaces a handler later on): same answers,
+        logged under its own route name so that a stale first handler is told apart."""
+        n0 = len(self.log)
+        try:
+            return self.handler(uri)
+        finally:
+            self.log[n0:] = [("handler2",) + tuple(e[1:]) for e in self.log[n0:]]
+
     # -- route 2: urllib ----------------------------------------------------
     def urlopen(self, uri, *a, **k):
         u, p, failing = self._enter("urlopen", uri)
